@@ -147,7 +147,17 @@ def check_single(params):
             bad("snake-right", "caps(x, x.l) @ Id >> Id @ cups(x.l, x) != Id")
     except Exception as e:  # noqa
         bad("snake-raises", "%r" % (e,))
-    # transposes through cups and caps equal the matrix transpose with reversed wire order
+    # results belong to the caller: overwriting their arrays in place must leave the operand intact
+    for label, thunk in (("dagger", lambda: t.dagger()), ("id >> f", lambda: Tensor.id(Dim(*dom)) >> t),
+                         ("f >> id", lambda: t >> Tensor.id(Dim(*cod))), ("f @ id()", lambda: t @ Tensor.id(Dim(1))),
+                         ("id() @ f", lambda: Tensor.id(Dim(1)) @ t), ("dagger.dagger", lambda: t.dagger().dagger())):
+        r = thunk()
+        a = r.array
+        if isinstance(a, np.ndarray) and a.flags.writeable and a.size and a.dtype != object:
+            a[...] = 7
+        if not np.array_equal(M(t), raw):
+            bad("result-aliased", "overwriting the array of `%s` in place changed f itself" % label)
+            break
     return out
 
 
